@@ -228,7 +228,7 @@ func vSessionChoice(tag string, n int) string {
 // vKVPreState fills the store with an arbitrary valid KV state (nKV keys of
 // length <= keyLen, up to one tombstone, sessions A and B) and returns the model
 // holding the same content, plus an operation index above every stored index.
-func vKVPreState(s *Store, maxKV, keyLen int, withTomb bool) (*vKVModel, uint64) {
+func vKVPreState(s *Store, maxKV, keyLen int, withTomb bool, sessChoices int) (*vKVModel, uint64) {
 	m := &vKVModel{sessions: []string{vSessA, vSessB}}
 	for _, id := range m.sessions {
 		vRawInsert(s, tableSessions, &structs.Session{ID: id, Node: "n1", Behavior: structs.SessionKeysRelease,
@@ -240,12 +240,13 @@ func vKVPreState(s *Store, maxKV, keyLen int, withTomb bool) (*vKVModel, uint64)
 	for i := 0; i < n; i++ {
 		tag := "kv" + string(rune('0'+i))
 		e := vKV{key: vKey(tag+".key", keyLen), value: vVal(tag + ".val"), flags: verifrt.U64(tag + ".flags"),
-			session: vSessionChoice(tag+".session", 3), lockIndex: verifrt.U64(tag + ".lock")}
+			session: vSessionChoice(tag+".session", sessChoices), lockIndex: verifrt.U64(tag + ".lock")}
 		ri := vRaftIndex(tag)
 		e.create, e.modify = ri.CreateIndex, ri.ModifyIndex
 		verifrt.Assume(e.modify <= kvsIdx)
-		for j := 0; j < i; j++ {
-			verifrt.Assume(m.kv[j].key != e.key)
+		if i > 0 {
+			// WLOG: the stored set is enumerated in key order (kills symmetric pre-states)
+			verifrt.Assume(verifrt.StrLess(m.kv[i-1].key, e.key))
 		}
 		m.kv = append(m.kv, e)
 		vRawInsert(s, tableKVs, &structs.DirEntry{Key: e.key, Value: e.value, Flags: e.flags, Session: e.session,
